@@ -353,7 +353,7 @@ def run(repo: Repo, chk: Check, thorough: bool = False) -> None:
     # descend into every block that is executed *in addition to* the body when the code is imported: the `else` of a loop / try and
     # the `finally` block.  (`If.orelse` is the branch not taken and `handlers` only run on an exception - both stay out by design.)
     gc = repo.func('pydoctor.astutils.NodeVisitor.get_children')
-    fields_read = {c.args[1].value for c in calls_in(gc) if call_name(c) == 'getattr' and len(c.args) >= 2 and isinstance(c.args[1], ast.Constant)} | \
+    fields_read = {c.args[1].value for c in scope_nodes(repo, gc) if isinstance(c, ast.Call) and call_name(c) == 'getattr' and len(c.args) >= 2 and isinstance(c.args[1], ast.Constant)} | \
         {n.attr for n in gc.walk() if isinstance(n, ast.Attribute) and isinstance(n.value, ast.Name) and n.value.id == gc.params()[1].arg} | \
         {e.value for n in scope_nodes(repo, gc) if isinstance(n, (ast.Tuple, ast.List, ast.Set)) for e in n.elts if isinstance(e, ast.Constant) and isinstance(e.value, str)}
     # a field may be read through a private helper that is handed its name: `yield from _iter_block(node, 'body')`
@@ -380,9 +380,12 @@ def run(repo: Repo, chk: Check, thorough: bool = False) -> None:
     # through expression statements): a field value may only be iterated once it is known to be a list
     cfg_gc0 = CFG(gc)
     # (an iteration is a `for` loop or a `yield from`; in get_children itself or in the helper that reads the field)
-    for gcf, lp in [(g_, n) for g_ in [gc] + gc_helpers for n in g_.walk() if isinstance(n, (ast.For, ast.YieldFrom))]:
+    # (... or a `yield` that hands the whole field value to a caller that iterates it: `yield body` in a helper generating the blocks)
+    for gcf, lp in [(g_, n) for g_ in [gc] + gc_helpers for n in g_.walk() if isinstance(n, (ast.For, ast.YieldFrom, ast.Yield))]:
         cfg_gc = cfg_gc0 if gcf is gc else CFG(gcf)
         src = lp.iter if isinstance(lp, ast.For) else lp.value
+        if src is None:
+            continue
         if isinstance(src, ast.Name):
             vals_ = [n.value for n in gcf.walk() if isinstance(n, (ast.Assign, ast.AnnAssign)) and n.value is not None and
                      any(isinstance(t, ast.Name) and t.id == src.id for t in (n.targets if isinstance(n, ast.Assign) else [n.target]))]
@@ -481,13 +484,17 @@ def run(repo: Repo, chk: Check, thorough: bool = False) -> None:
     # name and leaves `make` a plain function
     osd = repo.func(f'{MV}._handleOldSchoolMethodDecoration')
     cf_o = CFG(osd)
+
+    def _is_name_expr(e: ast.AST) -> bool:
+        # what the assigned name is compared with: the wrapped name, read off the call (`arg.id`) or handed back by a matching helper (`arg_name`) - not a literal
+        return isinstance(e, (ast.Name, ast.Attribute)) and not isinstance(e, ast.Constant)
     tp = osd.params()[1].arg
     kind_sets = [n for n in osd.walk() if isinstance(n, ast.Assign) and any(isinstance(t, ast.Attribute) and t.attr == 'kind' for t in n.targets)]
     if not kind_sets:
         raise AnalysisError('R03.10: _handleOldSchoolMethodDecoration no longer sets a kind')
     for ks in kind_sets:
         same = any(pol and isinstance(x, ast.Compare) and len(x.ops) == 1 and isinstance(x.ops[0], ast.Eq) and
-                   ((norm(x.left) == tp and norm(x.comparators[0]).endswith('.id')) or (norm(x.comparators[0]) == tp and norm(x.left).endswith('.id')))
+                   ((norm(x.left) == tp and _is_name_expr(x.comparators[0])) or (norm(x.comparators[0]) == tp and _is_name_expr(x.left)))
                    for x, pol in cf_o.dominating_tests(ks))
         chk.ob('R03.10', f'{MV}._handleOldSchoolMethodDecoration :: `{norm(ks)[:50]}` only for x = wrapper(x)', same,
                f'dominated by `{tp} == <wrapped name>`' if same else
